@@ -33,9 +33,9 @@ var domCol = []ivg.Color{
 	rgba(0xc0, 0xc0, 0xc0, 0xc0), rgba(0x80, 0x80, 0x80, 0x80), rgba(0, 0, 0, 0), // 1-byte specials
 	rgba(0x40, 0x40, 0x40, 0x40), rgba(0, 0, 0, 0x80), // Is1-shaped, not 1-byte encodable
 	rgba(0x33, 0x88, 0x00, 0xff), rgba(0x11, 0x22, 0x33, 0x44), // 2-byte
-	rgba(0x30, 0x66, 0x07, 0xff),                               // 3-byte
-	rgba(0x30, 0x66, 0x07, 0x80),                               // 4-byte translucent premultiplied
-	rgba(0x90, 0x66, 0x07, 0x80),                               // non-premultiplied non-gradient
+	rgba(0x30, 0x66, 0x07, 0xff),                                                                                           // 3-byte
+	rgba(0x30, 0x66, 0x07, 0x80),                                                                                           // 4-byte translucent premultiplied
+	rgba(0x90, 0x66, 0x07, 0x80),                                                                                           // non-premultiplied non-gradient
 	rgba(0x02, 0x4a, 0x8a, 0x00), rgba(0x05, 0xca, 0xca, 0x00), rgba(0x3f, 0x80, 0xff, 0x00), rgba(0xc2, 0x0a, 0x8a, 0x00), // gradients
 	ivg.PaletteIndexColor(0), ivg.PaletteIndexColor(63), ivg.CRegColor(0), ivg.CRegColor(63),
 	ivg.BlendColor(0, 0x7f, 0x80), ivg.BlendColor(1, 0xc1, 0x7c), ivg.BlendColor(128, 0x80, 0xff), ivg.BlendColor(254, 0x00, 0x7e), ivg.BlendColor(255, 0x30, 0x85),
